@@ -383,7 +383,7 @@ fn aux_full_len(hash: HashId, h0: u32) -> usize {
 }
 
 fn rand_aux_fault(rng: &mut Rng, nkeys: usize) -> AuxFault {
-    match rng.below(14) {
+    match rng.below(15) {
         0 | 1 => AuxFault::BitFlip { pos: rng.next_u64() as u32, bit: rng.below(8) as u8 },
         2 => AuxFault::Truncate { len: rng.next_u64() as u32 },
         3 => AuxFault::TruncateTo { len: rng.below(40) as usize },
@@ -398,6 +398,7 @@ fn rand_aux_fault(rng: &mut Rng, nkeys: usize) -> AuxFault {
         9 => AuxFault::LevelWordByte { idx: rng.below(4) as u8, val: rng.below(256) as u8 },
         10 | 11 => AuxFault::CopyFrom { key: rng.below(nkeys as u64) as usize, slot: rng.below(2) as usize },
         12 => AuxFault::MacBit { bit: rng.below(256) as u16 },
+        13 => AuxFault::DropMac,
         _ => AuxFault::NodeZero { pos: rng.next_u64() as u32 },
     }
 }
@@ -452,7 +453,15 @@ pub fn aux(ctx: &GenCtx, rng: &mut Rng, _run: u64) -> Plan {
                 let api = *rng.pick(&[Api::Fn, Api::ObjAux]);
                 plan.ops.push(Op::Sign { proc: k, msg: msg(rng, hash.n()), api, cb: Cb::Accept, aux: Some(rng.below(2) as usize) });
             }
-            5 | 6 | 7 => plan.ops.push(Op::AuxFault { key: k, slot: rng.below(2) as usize, fault: rand_aux_fault(rng, nkeys) }),
+            5 | 6 | 7 => {
+                let slot = rng.below(2) as usize;
+                let f = rand_aux_fault(rng, nkeys);
+                let combine = matches!(f, AuxFault::BitFlip { .. } | AuxFault::CopyFrom { .. } | AuxFault::NodeZero { .. }) && rng.chance(1, 3);
+                plan.ops.push(Op::AuxFault { key: k, slot, fault: f });
+                if combine {
+                    plan.ops.push(Op::AuxFault { key: k, slot, fault: AuxFault::DropMac });
+                }
+            }
             8 => plan.ops.push(Op::Keygen { key: k, aux: Some((rng.below(2) as usize, 0, AuxFill::Existing)) }),
             _ => {
                 let len = *rng.pick(&lens);
@@ -530,7 +539,26 @@ pub fn aux_enum(ctx: &GenCtx, rng: &mut Rng, run: u64) -> Option<Plan> {
             plan.ops.push(Op::Keygen { key: 0, aux: Some((0, 0, AuxFill::Existing)) });
         }
     }
-    plan.note = format!("enumerated: faults {}..{} of {} on the {}-byte aux buffer of {}", lo, hi, faults.len(), used, crate::exec::shape_string(hash, &params));
+    // two-fault combinations: a flipped bit in a cached node AND the buffer cut off right where the MAC
+    // would start (every third node byte; spread over the chunks)
+    let node_bytes: Vec<usize> = (4..used - n).step_by(3).collect();
+    for (i, byte) in node_bytes.iter().enumerate() {
+        if i as u64 % chunks != chunk {
+            continue;
+        }
+        plan.ops.push(Op::AuxFault { key: 0, slot: 0, fault: AuxFault::CopyFrom { key: 0, slot: 2 } });
+        plan.ops.push(Op::AuxFault { key: 0, slot: 0, fault: AuxFault::BitFlipAt { byte: *byte, bit: (i % 8) as u8 } });
+        plan.ops.push(Op::AuxFault { key: 0, slot: 0, fault: AuxFault::DropMac });
+        plan.ops.push(Op::Inject { key: 0, counter: (i as u64) % leaves });
+        plan.ops.push(Op::Sign { proc: 0, msg: Msg { len: 6, cseed: rng.next_u64() }, api: Api::Fn, cb: Cb::Accept, aux: Some(0) });
+        if i % 5 == 0 {
+            plan.ops.push(Op::AuxFault { key: 0, slot: 0, fault: AuxFault::CopyFrom { key: 0, slot: 2 } });
+            plan.ops.push(Op::AuxFault { key: 0, slot: 0, fault: AuxFault::BitFlipAt { byte: *byte, bit: (i % 8) as u8 } });
+            plan.ops.push(Op::AuxFault { key: 0, slot: 0, fault: AuxFault::DropMac });
+            plan.ops.push(Op::Keygen { key: 0, aux: Some((0, 0, AuxFill::Existing)) });
+        }
+    }
+    plan.note = format!("enumerated: faults {}..{} of {} on the {}-byte aux buffer of {}, plus bit-flip + MAC-cut combinations", lo, hi, faults.len(), used, crate::exec::shape_string(hash, &params));
     Some(plan)
 }
 pub fn aux_enum_space(quick: bool) -> u64 {
